@@ -117,6 +117,36 @@ def _str_or_strs(v):
     return isinstance(v, str) or (isinstance(v, list) and all(isinstance(z, str) for z in v))
 
 
+_DATE_OPS = {"DateEquals", "DateNotEquals", "DateLessThan", "DateLessThanEquals", "DateGreaterThan", "DateGreaterThanEquals"}
+_NUM_OPS = {"NumericEquals", "NumericNotEquals", "NumericLessThan", "NumericLessThanEquals", "NumericGreaterThan", "NumericGreaterThanEquals"}
+_DATE_VALUES = {"2020-01-01T00:00:01Z", "2020-01-01T00:00:00Z", "2019-07-16T19:15:00Z", "2020-06-01", "1767225600", 1767225600, 1600000000, "1600000000"}
+
+
+def _typed_condition_ok(op, block):
+    """documented value spellings of the typed operators (a fixed, small vocabulary: sufficient, not necessary)"""
+    def vals(z):
+        return z if isinstance(z, list) else [z]
+    if not (isinstance(block, dict) and block and all(isinstance(k, str) for k in block)):
+        return False
+    if op in _DATE_OPS:
+        return all(all((not isinstance(v, bool)) and isinstance(v, (str, int)) and v in _DATE_VALUES for v in vals(z)) for z in block.values())
+    if op in _NUM_OPS:
+        return all(all((isinstance(v, int) and not isinstance(v, bool) and 0 <= v < 10 ** 6) or (isinstance(v, str) and v.isascii() and v.isdigit() and len(v) < 7)
+                       for v in vals(z)) for z in block.values())
+    if op == "Bool":
+        return all(not isinstance(z, list) and (isinstance(z, bool) or z in ("true", "false")) for z in block.values())
+    if op in ("IpAddress", "NotIpAddress"):
+        import ipaddress
+        def net(v):
+            try:
+                ipaddress.ip_network(v, strict=True)
+                return isinstance(v, str)
+            except Exception:
+                return False
+        return all(all(net(v) for v in vals(z)) for z in block.values())
+    return False
+
+
 def well_formed_statement(st):
     if not isinstance(st, dict) or not set(st) <= {"Sid", "Effect", "Action", "NotAction", "Resource", "NotResource", "Principal",
                                                     "NotPrincipal", "Condition"}:
@@ -135,9 +165,14 @@ def well_formed_statement(st):
                 return False
     if "Condition" in st:
         c = st["Condition"]
-        if not (isinstance(c, dict) and c and set(c) <= _SAFE_OPS
-                and all(isinstance(b, dict) and b and all(isinstance(k, str) and _str_or_strs(z) for k, z in b.items()) for b in c.values())):
+        if not (isinstance(c, dict) and c):
             return False
+        for op, b in c.items():
+            if op in _SAFE_OPS:
+                if not (isinstance(b, dict) and b and all(isinstance(k, str) and _str_or_strs(z) for k, z in b.items())):
+                    return False
+            elif not _typed_condition_ok(op, b):
+                return False
     return True
 
 
